@@ -115,6 +115,11 @@ def c_event(ev):
 RESULT_RE = re.compile(r"=\s*\(\s*(\d+)(?:%nat)?\s*,\s*\[(.*?)\]\s*\)", re.S)
 
 
+def expand(term):
+    """replace interned-literal tokens by their text (for terms built in another process)"""
+    return TOKEN_RE.sub(lambda m: "(" + _TOKENS["\u27e6L%s\u27e7" % m.group(1)] + ")", term)
+
+
 def run_case_files(workdir, header, checker, case_terms, shard=250, jobs=16, timeout=900,
                    extra_defs=""):
     """Write case_terms (Gallina terms) into shards, evaluate `mismatches checker` with
